@@ -212,11 +212,12 @@ def _herald_roundtrip(state: list[int], hk: list[int], hv: list[int], order: boo
 
 def _fock_basis(N: int, n: int) -> bool:
     """
-    pre: 1 <= N <= 4 and 0 <= n <= 4
+    pre: 0 <= N <= 4 and 0 <= n <= 4
     post: _
     """
     fb = fock_basis(N, n)
-    if len(fb) != math.comb(N + n - 1, n):
+    want = math.comb(N + n - 1, n) if N > 0 else (1 if n == 0 else 0)
+    if len(fb) != want:
         return False
     seen = set()
     for s in fb:
